@@ -860,34 +860,4 @@ func checkPushRecords(c *km.Ctx) {
 	}
 }
 
-// cellOrigin: the value a local variable cell holds when it is stored exactly once (a struct kept in a variable
-// so that a value-receiver method can be called on it is the value that was stored).
-func cellOrigin(v ssa.Value) ssa.Value {
-	v = km.Unwrap(v)
-	for i := 0; i < 4; i++ {
-		var cell *ssa.Alloc
-		switch x := v.(type) {
-		case *ssa.Alloc:
-			cell = x
-		case *ssa.UnOp:
-			if a, ok := x.X.(*ssa.Alloc); ok && x.Op == token.MUL {
-				cell = a
-			}
-		}
-		if cell == nil {
-			return v
-		}
-		var stored ssa.Value
-		n := 0
-		for _, ref := range *cell.Referrers() {
-			if st, ok := ref.(*ssa.Store); ok && st.Addr == ssa.Value(cell) {
-				stored, n = st.Val, n+1
-			}
-		}
-		if n != 1 {
-			return v
-		}
-		v = km.Unwrap(stored)
-	}
-	return v
-}
+func cellOrigin(v ssa.Value) ssa.Value { return km.CellOrigin(v) }
